@@ -49,6 +49,17 @@ let ents_str es =
   String.concat " " (string_of_int (List.length es) ::
     List.concat_map (fun e -> [string_of_n e.tid; string_of_n e.off; string_of_n e.len; string_of_n e.run]) es)
 
+let id_bytes (b:n list) : n list = b
+let parse_arch ts : archive =
+  let vs = List.init 25 (fun _ -> z_of_string (tok ts)) in
+  let es = tents ts in
+  let data = bytes_of_hex (tok ts) in
+  let meta = bytes_of_hex (tok ts) in
+  { a_hdr = list_header vs; a_entries = es; a_data = data; a_meta = meta }
+let proj_str (h : nat -> z) : string =
+  let f i = string_of_z (h (nat_of_int i)) in
+  String.concat " " [f 9; f 10; f 11; f 12; f 13; f 14; f 15; f 16; f 17; f 18; f 19; f 20; f 21; f 22; f 23; f 24; f 8]
+
 let run_case (line:string) : string =
   let ts = { t = List.filter (fun s -> s <> "") (String.split_on_char ' ' line) } in
   match tok ts with
@@ -105,6 +116,13 @@ let run_case (line:string) : string =
     (match optimize_small serialize_entries es target with
      | Some ((root, leaves), n) -> Printf.sprintf "ok %d %s %s" (int_of_nat n) (digest_bytes root) (digest_bytes leaves)
      | None -> "outoffuel")
+  | "cluster" ->
+    let dedup = ti ts = 1 in let _ = ti ts in let _ = ti ts in let _ = ti ts in
+    let a = parse_arch ts in
+    (match cluster id_bytes dedup a N0 N0 N0 with
+     | COk a' -> String.concat " " ["ok"; proj_str a'.a_hdr; ents_str a'.a_entries; hex_of_bytes a'.a_data; hex_of_bytes a'.a_meta]
+     | CAlreadyClustered -> "err"
+     | CCrash -> "crash")
   | op -> "unknown-op " ^ op
 
 let () =
